@@ -5,7 +5,7 @@ import json
 KINDS = ["exec", "query", "instantiate", "migrate", "reply", "sudo"]
 CTX = {"exec": "ExecCtx", "query": "QueryCtx", "instantiate": "InstantiateCtx", "migrate": "MigrateCtx",
        "reply": "ReplyCtx", "sudo": "SudoCtx"}
-WORDS = ["a", "b", "x", "go", "do", "get", "set", "add", "burn", "mint", "send", "vote", "admin", "owner", "count",
+WORDS = ["a", "b", "x", "go", "run", "get", "set", "add", "burn", "mint", "send", "vote", "admin", "owner", "count",
          "transfer", "update", "query", "exec", "msg", "list", "info", "config", "step", "v", "n", "id"]
 
 
